@@ -191,24 +191,24 @@ type effectClass struct {
 
 // effectTable classifies today's load-time effects, one line of reason each.
 var effectTable = map[string]effectClass{
-	"(*casket.Instance).Stop/global-write:casket.instances":                          {"benign", "removes the stopped instance from the list; only reached from Restart after the new instance is up"},
-	"(*httpserver.Server).Listen/listen:net.Listen":                                  {"undone", "listener is registered with startServers' cleanup, which closes it when the start fails (R3)"},
-	"(*httpserver.Server).ListenPacket/listen:net.ListenUDP":                         {"undone", "packet conn is registered with startServers' cleanup (R3)"},
-	"casket.startServers/go:casket.startServers$2$1":                                 {"benign", "serving goroutine; started only after every listener was opened, no fallible step follows (R3 checks the order)"},
-	"casket.startServers/go:casket.startServers$2$2":                                 {"benign", "serving goroutine (packet side); see above"},
-	"casket.startServers/go:casket.startServers$3":                                   {"benign", "error-logging goroutine, terminated through stopChan when the servers stop"},
-	"casket.startServers/go:casket.startServers$4":                                   {"benign", "waits for the serving goroutines, then stops the logger goroutine"},
-	"casket.startWithListenerFds/global-write:casket.instances":                      {"undone", "instance is appended at the start and spliced out again by the deferred cleanup when err != nil (R4 checks the flag discipline)"},
-	"casket.startWithListenerFds/global-write:casket.started":                        {"benign", "monotone flag set only after a fully successful start"},
-	"websocket.setup/global-write:websocket.GatewayInterface":                        {"benign", "assigns a constant derived from the app name on every load: idempotent"},
-	"websocket.setup/global-write:websocket.ServerSoftware":                          {"benign", "assigns a constant derived from the app name on every load: idempotent"},
-	"basicauth.GetHtpasswdMatcher/global-write:basicauth.htpasswords":                {"benign", "lazy creation of the cache map itself (empty map): idempotent"},
-	"basicauth.GetHtpasswdMatcher/global-map-write:basicauth.htpasswords":            {"known", "htpasswd cache entry survives failed loads and reloads"},
-	"casket.RegisterEventHook/syncmap-store:(*sync.Map).LoadOrStore@casket.eventHooks": {"known", "`on` hooks registered by a failed Start/Restart stay registered"},
-	"caskettls.NewConfig/go:caskettls.NewConfig$2":                                   {"known", "certificate cache maintenance goroutine of a discarded instance is only stopped by OnShutdown"},
-	"caskettls.NewConfig/ticker:time.NewTicker":                                      {"known", "ticker of a discarded instance is only stopped by OnShutdown"},
-	"caskettls.makeClusteringPlugin/cas:sync/atomic.CompareAndSwapInt32@caskettls.clusterPluginSetup": {"known", "flag set before the fallible plugin construction and never reset"},
-	"proxy.NewStaticUpstreams/go:proxy.NewStaticUpstreams$1":                         {"known", "health-check goroutine of a discarded instance is only stopped by OnShutdown"},
+	"(*casket.Instance).Stop/global-write:casket.instances":                                              {"benign", "removes the stopped instance from the list; only reached from Restart after the new instance is up"},
+	"(*httpserver.Server).Listen/listen:net.Listen":                                                      {"undone", "listener is registered with startServers' cleanup, which closes it when the start fails (R3)"},
+	"(*httpserver.Server).ListenPacket/listen:net.ListenUDP":                                             {"undone", "packet conn is registered with startServers' cleanup (R3)"},
+	"casket.startServers/go:func{(*sync.WaitGroup).Done,Serve}":                                          {"benign", "serving goroutine; started only after every listener was opened, no fallible step follows (R3 checks the order)"},
+	"casket.startServers/go:func{(*sync.WaitGroup).Done,ServePacket}":                                    {"benign", "serving goroutine (packet side); see above"},
+	"casket.startServers/go:func{Error,strings.Contains}":                                                {"benign", "error-logging goroutine, terminated through stopChan when the servers stop"},
+	"casket.startServers/go:func{(*sync.WaitGroup).Wait}":                                                {"benign", "waits for the serving goroutines, then stops the logger goroutine"},
+	"casket.startWithListenerFds/global-write:casket.instances":                                          {"undone", "instance is appended at the start and spliced out again by the deferred cleanup when err != nil (R4 checks the flag discipline)"},
+	"casket.startWithListenerFds/global-write:casket.started":                                            {"benign", "monotone flag set only after a fully successful start"},
+	"websocket.setup/global-write:websocket.GatewayInterface":                                            {"benign", "assigns a constant derived from the app name on every load: idempotent"},
+	"websocket.setup/global-write:websocket.ServerSoftware":                                              {"benign", "assigns a constant derived from the app name on every load: idempotent"},
+	"basicauth.GetHtpasswdMatcher/global-write:basicauth.htpasswords":                                    {"benign", "lazy creation of the cache map itself (empty map): idempotent"},
+	"basicauth.GetHtpasswdMatcher/global-map-write:basicauth.htpasswords":                                {"known", "htpasswd cache entry survives failed loads and reloads"},
+	"casket.RegisterEventHook/syncmap-store:(*sync.Map).LoadOrStore@casket.eventHooks":                   {"known", "`on` hooks registered by a failed Start/Restart stay registered"},
+	"caskettls.NewConfig/go:func{(*time.Ticker).Stop,context.TODO,github.certmagic.CleanStorage}":        {"known", "certificate cache maintenance goroutine of a discarded instance is only stopped by OnShutdown"},
+	"caskettls.NewConfig/ticker:time.NewTicker":                                                          {"known", "ticker of a discarded instance is only stopped by OnShutdown"},
+	"caskettls.makeClusteringPlugin/cas:sync/atomic.CompareAndSwapInt32@caskettls.clusterPluginSetup":    {"known", "flag set before the fallible plugin construction and never reset"},
+	"proxy.NewStaticUpstreams/go:func{(*proxy.staticUpstream).HealthCheckWorker,(*sync.WaitGroup).Done}": {"known", "health-check goroutine of a discarded instance is only stopped by OnShutdown"},
 }
 
 func loadRoots(p *Program) []*ssa.Function {
